@@ -125,7 +125,8 @@ class InitState:
         """State of a reallocated block that keeps the first ``keep`` cells."""
         new = InitState()
         if self.all:
-            raise HarnessError("reallocating an input block")
+            new.layers = [((keep,), z3.K(sym.IntSort, z3.BoolVal(True)))]
+            return new
         cells = self.cells
         if isinstance(keep, int):
             new.cells = {k for k in cells if k < keep}
